@@ -91,6 +91,8 @@ pub struct LazerExtra {
     pub speed_change: Option<f64>,
     /// use DC instead of HT
     pub daycore: bool,
+    /// 10K (mania only; has no legacy bit)
+    pub ten_keys: bool,
 }
 
 impl LazerExtra {
@@ -262,6 +264,9 @@ impl ModSpec {
         }
 
         if mode == GameMode::Mania {
+            if e.ten_keys {
+                mods.insert(GameMod::TenKeysMania(TenKeysMania {}));
+            }
             if e.ho {
                 mods.insert(GameMod::HoldOffMania(HoldOffMania {}));
             }
